@@ -81,7 +81,25 @@ func typeName(t types.Type) string {
 // CalleeName gives the resolved name of the callee of a call:
 // "bytes.Equal", "(*certurl.AugmentedCertificate).CertSha256",
 // "invoke:signingalgorithm.Verifier.Verify", "builtin:len", "dyn:<provenance of the function value>".
+// stdlibAlias: equivalent standard-library entry points render under one
+// name (deprecated ioutil wrappers; a read-only bytes.Reader and a
+// bytes.Buffer used for reading).
+var stdlibAlias = map[string]string{
+	"ioutil.ReadAll": "io.ReadAll", "ioutil.ReadFile": "os.ReadFile", "ioutil.WriteFile": "os.WriteFile",
+	"ioutil.ReadDir": "os.ReadDir", "ioutil.NopCloser": "io.NopCloser",
+	"bytes.NewReader": "bytes.NewBuffer", "(*bytes.Reader).ReadByte": "(*bytes.Buffer).ReadByte",
+	"(*bytes.Reader).Read": "(*bytes.Buffer).Read", "(*bytes.Reader).Len": "(*bytes.Buffer).Len",
+}
+
 func CalleeName(c *ssa.CallCommon) string {
+	n := calleeName(c)
+	if a, ok := stdlibAlias[n]; ok {
+		return a
+	}
+	return n
+}
+
+func calleeName(c *ssa.CallCommon) string {
 	if c.IsInvoke() {
 		return "invoke:" + typeName(c.Value.Type()) + "." + c.Method.Name()
 	}
@@ -171,6 +189,11 @@ func render(v ssa.Value, d int, onstack map[ssa.Value]bool) string {
 	case *ssa.Builtin:
 		return "builtin:" + x.Name()
 	case *ssa.Alloc:
+		// a byte array filled by binary.BigEndian.PutUintN(arr[:], v) is the
+		// big-endian encoding of v
+		if t, ok := bigEndianArray(x, r); ok {
+			return t
+		}
 		// A local whose address is taken: the values stored into it.
 		var vals []string
 		seen := map[string]bool{}
@@ -258,8 +281,16 @@ func render(v ssa.Value, d int, onstack map[ssa.Value]bool) string {
 		}
 		return "(" + r(x.X) + " " + x.Op.String() + " " + r(x.Y) + ")"
 	case *ssa.Call:
+		if t, ok := inlineHelper(x, 0); ok {
+			return t
+		}
 		return callString(&x.Call, r)
 	case *ssa.Extract:
+		if c, ok := x.Tuple.(*ssa.Call); ok {
+			if t, ok := inlineHelper(c, x.Index); ok {
+				return t
+			}
+		}
 		base := r(x.Tuple)
 		switch t := x.Tuple.(type) {
 		case *ssa.TypeAssert:
@@ -376,6 +407,46 @@ func Match(pattern, term string) bool {
 		}
 		return false
 	}
+	// "{a|b}" inside a pattern stands for either a or b
+	if i := strings.IndexByte(pattern, '{'); i >= 0 {
+		depth, j := 0, -1
+		for k := i; k < len(pattern); k++ {
+			if pattern[k] == '{' {
+				depth++
+			} else if pattern[k] == '}' {
+				depth--
+				if depth == 0 {
+					j = k
+					break
+				}
+			}
+		}
+		if j > i {
+			// split the group at top-level '|'
+			var alts []string
+			d, start := 0, i+1
+			for k := i + 1; k < j; k++ {
+				switch pattern[k] {
+				case '{', '(':
+					d++
+				case '}', ')':
+					d--
+				case '|':
+					if d == 0 {
+						alts = append(alts, pattern[start:k])
+						start = k + 1
+					}
+				}
+			}
+			alts = append(alts, pattern[start:j])
+			for _, a := range alts {
+				if Match(pattern[:i]+a+pattern[j+1:], term) {
+					return true
+				}
+			}
+			return false
+		}
+	}
 	if !strings.Contains(pattern, "*") {
 		return pattern == term
 	}
@@ -443,4 +514,80 @@ func isIndexLoopVar(p *ssa.Phi) bool {
 		}
 	}
 	return false
+}
+
+// ModulePrefix is the import-path prefix of the analysed module (set by the loader).
+var ModulePrefix = "github.com/WICG/webpackage"
+
+// inlineHelper: a call to a module function that the rule tables do not know
+// (an expression extracted into a new helper) and that has a single return
+// renders as that return's result, with the helper's parameters standing for
+// the arguments of the call.
+func inlineHelper(c *ssa.Call, idx int) (string, bool) {
+	fn := c.Call.StaticCallee()
+	if fn == nil || fn.Blocks == nil || fn.Pkg == nil || !strings.HasPrefix(fn.Pkg.Pkg.Path(), ModulePrefix) {
+		return "", false
+	}
+	if SubstDepth() > 3 || len(c.Call.Args) != len(fn.Params) || KnownFunction(fn) {
+		return "", false
+	}
+	var ret *ssa.Return
+	for _, b := range fn.Blocks {
+		if r, ok := b.Instrs[len(b.Instrs)-1].(*ssa.Return); ok {
+			if ret != nil {
+				return "", false
+			}
+			ret = r
+		}
+	}
+	if ret == nil || idx >= len(ret.Results) {
+		return "", false
+	}
+	PushSubst(fn, &c.Call)
+	defer PopSubst()
+	return Of(ret.Results[idx]), true
+}
+
+// bigEndianArray: x is a [2|4|8]byte array whose only writer is
+// binary.BigEndian.PutUintN(x[:], v): renders "beN(v)" with N the byte width.
+func bigEndianArray(x *ssa.Alloc, r func(ssa.Value) string) (string, bool) {
+	at, ok := deref(x.Type()).Underlying().(*types.Array)
+	if !ok {
+		return "", false
+	}
+	if b, ok := at.Elem().Underlying().(*types.Basic); !ok || b.Kind() != types.Uint8 {
+		return "", false
+	}
+	found := ""
+	for _, ref := range *x.Referrers() {
+		switch y := ref.(type) {
+		case *ssa.Slice:
+			for _, rr := range *y.Referrers() {
+				c, ok := rr.(*ssa.Call)
+				if !ok || len(c.Call.Args) != 3 || c.Call.Args[1] != ssa.Value(y) {
+					continue
+				}
+				name := calleeName(&c.Call)
+				w := map[string]string{"(binary.bigEndian).PutUint16": "2", "(binary.bigEndian).PutUint32": "4", "(binary.bigEndian).PutUint64": "8"}[name]
+				if w == "" {
+					continue
+				}
+				if found != "" {
+					return "", false
+				}
+				found = "be" + w + "(" + r(c.Call.Args[2]) + ")"
+			}
+		case *ssa.Store:
+			if y.Addr == ssa.Value(x) {
+				return "", false
+			}
+		case *ssa.IndexAddr:
+			for _, rr := range *y.Referrers() {
+				if st, ok := rr.(*ssa.Store); ok && st.Addr == ssa.Value(y) {
+					return "", false // also written element-wise
+				}
+			}
+		}
+	}
+	return found, found != ""
 }
